@@ -217,10 +217,14 @@ def run_case(cfg):
     def fail(sig, what, **kw):
         fails.append((sig, what, {**base_rp, "clause": sig, **kw}))
 
-    def go(a, b, L=None, weight=None):
+    EPS = float(np.finfo(float).eps)
+
+    def go(a, b, L=None, weight=None, reg=1.0):
+        # `regularization` (absolute clamp of flux norms, default eps) and Bregman's `L` are dimensional parameters of the
+        # iterations: the homogeneity laws of the (possibly unconverged) iterates are joint in (masses, L, regularization)
         nonlocal n
         n += 1
-        return solve(d, a, b, dims, method, options(l1, mob, ni, L=L), weight=weight)
+        return solve(d, a, b, dims, method, options(l1, mob, ni, L=L, extra={"regularization": EPS * reg}), weight=weight)
 
     cls = f"{method}:{mob}:{l1}:dim={len(shape)}"
     r = go(m1, m2, L=1.0)
@@ -272,7 +276,7 @@ def run_case(cfg):
             fail(f"C05:swap:{method}", f"{cls} grid {shape}: d(m1,m2)={dist!r} but d(m2,m1)={float(rs[0])!r}", distance=dist, swapped=float(rs[0]))
     # (vi) scaling of both masses; for Bregman the regularisation parameter L ("approximate flux norm") is scaled along
     for s, tol, tag in ((cfg["pow2"], TOL_EXACT, "pow2"), (cfg["gen"], TOL_GEN, "generic")):
-        rr = go(s * m1, s * m2, L=s if method == "bregman" else 1.0)
+        rr = go(s * m1, s * m2, L=s if method == "bregman" else 1.0, reg=s)
         if isinstance(rr, Raised):
             fail(f"C05:scale:raises:{method}", f"{cls}: scaled pair raises {rr}")
             continue
@@ -291,7 +295,7 @@ def run_case(cfg):
                      f"(converged={info.get('converged')}/{rr[1].get('converged')})", distance=dist, s=s, scaled=float(rr[0]))
     # (vii) constant weight
     k = cfg["weight"]
-    rw = go(m1, m2, L=1.0, weight=k * np.ones(shape))
+    rw = go(m1, m2, L=1.0, weight=k * np.ones(shape), reg=k)
     if isinstance(rw, Raised):
         fail(f"C05:weight:raises:{method}", f"{cls}: constant weight raises {rw}: {str(rw.exc)[:100]}")
     else:
@@ -307,7 +311,7 @@ def run_case(cfg):
         with warnings.catch_warnings():
             warnings.simplefilter("ignore")
             im1, im2 = image(d, m1, dims), image(d, m2, dims)
-            be = call(lambda: cl(d.generate_grid(im1), None, options(l1, mob, ni, L=1.0))(im1, im2))
+            be = call(lambda: cl(d.generate_grid(im1), None, options(l1, mob, ni, L=1.0, extra={"regularization": EPS}))(im1, im2))
         n += 1
         if isinstance(be, Raised) or float(be[0]) != dist:
             fail(f"C05:frontend!=backend:{method}", f"{cls}: front-end {dist!r}, back-end {be if isinstance(be, Raised) else float(be[0])!r}")
@@ -855,6 +859,7 @@ def run(ctx):
                        "per case: base, identical, swap, x2^k, x generic, fixed-L Bregman (every third), constant weight, back-end; distinct = distinct case configuration")
     ctx.cov["explanation"] = CLAIM["text"]
     ctx.assumptions += ["solver options: direct linear solver, pressure formulation, tolerances 1e-10 (the iteration may stop unconverged: all checked clauses except fixed-L Bregman scaling hold for unconverged iterates)",
+                        "scaled runs scale the dimensional solver parameters along: Bregman's L and the absolute clamp `regularization` (with the default clamp an unconverged Newton/SUBCELL run on compact data deviates by 1e-7 relative)",
                         "the flat face flux is recovered from the public info['flux'] (cell-centre RT0 values) by the recursion u_hi = 2*centre - u_lo",
                         "cv2.EMD computes the optimal flow for the given signatures (not covered)"]
 
